@@ -2,7 +2,8 @@
 (* C19 - JSON.parse / JSON.stringify implement the JSON / ECMAScript contract.       *)
 (*   Enum  : the case spaces, generated as a tree so that 16 workers share the work:  *)
 (*           token-class sequences, full-vocabulary sequences, single-token mutations *)
-(*           of valid texts, value structures, key strings, cycles, shared nodes.     *)
+(*           of valid texts, value structures, key strings, cycles, shared nodes,     *)
+(*           strings by shape (unit-class sequences) as operands and as string tokens.*)
 (*   Laws  : properties of the reference (JsJSON) itself, INVARIANT on every state.   *)
 (*   Judge : records observed on the real engine, judged against JsJSON.              *)
 EXTENDS JsJSON, Json, IOUtils
@@ -113,14 +114,17 @@ HardNums == { VNumW(JNumSlow(U("1e21"))), VNumW(JNumSlow(U("1e-7"))), VNumW(JNum
               VNumW(JNumSlow(U("123456789012"))), VNumW(JNumSlow(U("-1e-5"))), VNumW(JNumSlow(U("1e16"))), VNumW(JNumSlow(U("0.000001"))),
               VNumW(JNumSlow(U("4.35"))), VNumW(JNumSlow(U("5e-324"))), VNumW(JNumSlow(U("1.7976931348623157e308"))), VNumW(JNumSlow(U("-1e21"))),
               VNumW(JNumSlow(U("100"))), VNumW(JNumSlow(U("0.0625"))), VNumW(JNumSlow(U("1073741824"))), VNumW(JNumSlow(U("4294967296"))) }
-Arrs(K) == {VArr(<<>>)} \cup {VArr(<<x>>) : x \in K} \cup {VArr(<<x, y>>) : x \in K, y \in K}
-Objs(K) == {VObj(<<>>)} \cup {VObj(<<[n |-> KA, v |-> x]>>) : x \in K}
-             \cup {VObj(<<[n |-> KA, v |-> x], [n |-> KB, v |-> y]>>) : x \in K, y \in K}
-Lvl(K) == Arrs(K) \cup Objs(K)
-\* width <= 2 with one leaf (the shape space); T3 has 26682 elements
+\* one level of containers over the kid set K, generated group-wise: the members whose FIRST kid is x.
+\* (The spaces are generated per group inside the enumeration actions, in parallel by TLC's workers; as global
+\* constants TLC evaluated them once per worker at start-up, single-threaded: 100 s for the 26 682 shapes.)
+ArrsFrom(x, K) == {VArr(<<x>>)} \cup {VArr(<<x, y>>) : y \in K}
+ObjsFrom(x, K) == {VObj(<<[n |-> KA, v |-> x]>>)} \cup {VObj(<<[n |-> KA, v |-> x], [n |-> KB, v |-> y]>>) : y \in K}
+LvlFrom(x, K) == ArrsFrom(x, K) \cup ObjsFrom(x, K)
+Empties == {VArr(<<>>), VObj(<<>>)}
+Lvl(K) == Empties \cup UNION {LvlFrom(x, K) : x \in K}
+\* width <= 2 with one leaf (the shape space); T3 = Lvl(T2) has 26682 elements and is never built as one set
 T1(l) == {l} \cup Lvl({l})
 T2(l) == {l} \cup Lvl(T1(l))
-T3(l) == Lvl(T2(l))
 RECURSIVE Nodes(_)
 Nodes(v) == CASE v.k = "arr" -> 1 + SumSeq([j \in 1..Len(v.e) |-> Nodes(v.e[j])])
               [] v.k = "obj" -> 1 + SumSeq([j \in 1..Len(v.p) |-> Nodes(v.p[j].v)])
@@ -132,14 +136,12 @@ Depth(v) == CASE v.k = "arr" -> 1 + MaxSeq([j \in 1..Len(v.e) |-> Depth(v.e[j])]
               [] v.k = "obj" -> 1 + MaxSeq([j \in 1..Len(v.p) |-> Depth(v.p[j].v)])
               [] OTHER -> 0
 SmallKids == {VInt(1), Undef, VStr(<<233>>)}
-D1 == Lvl(LeafGrid) \cup LeafGrid \cup HardNums \cup Lvl(HardNums)
-D2 == Lvl(SmallKids \cup {VFn, Null} \cup Lvl(SmallKids))
+D2Kids == SmallKids \cup {VFn, Null} \cup Lvl(SmallKids)
 ShapeLeaves == IF Quick THEN {VInt(1)} ELSE {VInt(1), Undef}
-D3 == UNION {IF Quick THEN {v \in T3(l) : Depth(v) = 3 /\ Nodes(v) <= 7} ELSE T3(l) : l \in ShapeLeaves}
+ShapeKeep(v) == IF Quick THEN Depth(v) = 3 /\ Nodes(v) <= 7 ELSE TRUE
 \* key strings that need escapes
 KeyGrid == {KA, <<>>, U("a\"b\\c"), <<10>>, <<31>>, <<127>>, <<233>>, PairU, <<55357>>, <<56832>>, U("__proto__"), U("toJSON"), U("length")}
-KeyCases == {VObj(<<[n |-> x, v |-> VInt(1)]>>) : x \in KeyGrid}
-              \cup {VObj(<<[n |-> x, v |-> VInt(1)], [n |-> y, v |-> VStr(y)]>>) : x \in KeyGrid, y \in KeyGrid}
+KeyCasesFrom(x) == {VObj(<<[n |-> x, v |-> VInt(1)]>>)} \cup {VObj(<<[n |-> x, v |-> VInt(1)], [n |-> y, v |-> VStr(y)]>>) : y \in KeyGrid}
 \* cycles of length 1..3: a chain of containers whose innermost member refers back to the d-th enclosing container
 Wrap(kind, child, sib) ==
   IF kind = "A" THEN VArr(CASE sib = 0 -> <<child>> [] sib = 1 -> <<VInt(1), child>> [] OTHER -> <<child, VInt(1)>>)
@@ -149,23 +151,78 @@ Wrap(kind, child, sib) ==
 RECURSIVE Chain(_, _, _)
 Chain(kinds, inner, sib) == IF kinds = <<>> THEN inner ELSE Wrap(Head(kinds), Chain(Tail(kinds), inner, sib), sib)
 KindSeqs == UNION {[1..n -> {"A", "O"}] : n \in 1..3}
-CycleCases == {Chain(ks, VBack(d), sib) : ks \in KindSeqs, d \in 1..3, sib \in 0..2}
+CycleCasesFrom(ks) == {Chain(ks, VBack(d), sib) : d \in 1..3, sib \in 0..2}
 \* the same (acyclic) object referenced twice is not a cycle: [k |-> "shared", id, v] nodes with one id are ONE engine object
 VShared(id, v) == [k |-> "shared", id |-> id, v |-> v]
 SharedSubs == {VObj(<<>>), VArr(<<>>), VObj(<<[n |-> KA, v |-> VInt(1)]>>), VArr(<<VArr(<<>>)>>)}
-SharedCases == UNION {{ VArr(<<VShared(1, x), VShared(1, x)>>),
+SharedCasesFrom(x) == { VArr(<<VShared(1, x), VShared(1, x)>>),
                         VObj(<<[n |-> KA, v |-> VShared(1, x)], [n |-> KB, v |-> VShared(1, x)]>>),
                         VObj(<<[n |-> KA, v |-> VShared(1, x)], [n |-> KB, v |-> VArr(<<VShared(1, x)>>)]>>),
-                        VArr(<<VArr(<<VShared(1, x)>>), VObj(<<[n |-> KA, v |-> VShared(1, x)]>>), VShared(1, x)>>) } : x \in SharedSubs}
+                        VArr(<<VArr(<<VShared(1, x)>>), VObj(<<[n |-> KA, v |-> VShared(1, x)]>>), VShared(1, x)>>) }
 \* shared nodes mean their content
 RECURSIVE Unshare(_)
 Unshare(v) == CASE v.k = "shared" -> Unshare(v.v)
                 [] v.k = "arr" -> VArr([j \in 1..Len(v.e) |-> Unshare(v.e[j])])
                 [] v.k = "obj" -> VObj([j \in 1..Len(v.p) |-> [n |-> v.p[j].n, v |-> Unshare(v.p[j].v)]])
                 [] OTHER -> v
-ValueCases == {c \in D1 \cup D2 \cup D3 \cup KeyCases \cup CycleCases : JWellFormed(c, 0)} \cup SharedCases
-ValSeq == SX!SetToSeq(ValueCases)
-NGroups == 96
+\* the value groups: <<tag, first kid / key / kinds>>; the union over all groups is
+\*   leaves, hard numbers, one level over each (D1) | depth 2 over the reduced grid (D2) | the shapes of depth <= 3 (D3)
+\*   | key strings | cycles | shared nodes
+ValGroups == {<<"e", 0>>}
+               \cup {<<"l", x>> : x \in LeafGrid} \cup {<<"h", x>> : x \in HardNums} \cup {<<"m", x>> : x \in D2Kids}
+               \cup UNION {{<<"s", x, l>> : x \in T2(l)} : l \in ShapeLeaves}
+               \cup {<<"k", x>> : x \in KeyGrid} \cup {<<"c", ks>> : ks \in KindSeqs} \cup {<<"sh", x>> : x \in SharedSubs}
+ValGroupRaw(g) ==
+  CASE g[1] = "e" -> Empties
+    [] g[1] = "l" -> {g[2]} \cup LvlFrom(g[2], LeafGrid)
+    [] g[1] = "h" -> {g[2]} \cup LvlFrom(g[2], HardNums)
+    [] g[1] = "m" -> LvlFrom(g[2], D2Kids)
+    [] g[1] = "s" -> {v \in LvlFrom(g[2], T2(g[3])) : ShapeKeep(v)}
+    [] g[1] = "k" -> KeyCasesFrom(g[2])
+    [] g[1] = "c" -> CycleCasesFrom(g[2])
+ValGroup(g) == IF g[1] = "sh" THEN SharedCasesFrom(g[2]) ELSE {c \in ValGroupRaw(g) : JWellFormed(c, 0)}
+
+\* ---------------- strings by shape: sequences of code-unit CLASSES (for stringify: sv; as string tokens: st) ---
+\* The leaf and key grids hold one string per special unit; QuoteJSONString and the decoder's string scanner decide per
+\* POSITION (a surrogate is escaped or kept depending on its neighbours, a unit is first / inner / last).  This family has
+\* every sequence of unit classes up to a length: 1 plain, 2 quote / backslash, 3 controls with a short escape,
+\* 4 other controls, 5 DEL / non-ASCII BMP (never escaped), 6 lead surrogates, 7 trail surrogates (boundaries of both ranges).
+StrClassTable == << <<97, 47, 32, 126>>, <<34, 92>>, <<8, 9, 10, 12, 13>>, <<0, 31, 11, 27>>, <<127, 233, 8232, 65279, 65535>>,
+                    <<55296, 55357, 56319>>, <<56320, 56832, 57343>> >>
+NStrClasses == Len(StrClassTable)
+StrUnitsAll == UNION {{StrClassTable[c][j] : j \in 1..Len(StrClassTable[c])} : c \in 1..NStrClasses}
+StrValLen == EnvInt("C19_SVLEN", IF Quick THEN 3 ELSE 4)           \* stringify operands
+StrTokLen == EnvInt("C19_STLEN", 3)                                 \* string tokens of texts
+StrClassSeqs == UNION {[1..n -> 1..NStrClasses] : n \in 0..Max(StrValLen, StrTokLen)}
+\* concrete units by rotation through each class (as ClassText); r shifts the rotation
+StrUnits(cs, r) == LET rot == SumSeq(cs) + r
+                   IN [j \in 1..Len(cs) |-> LET ts == StrClassTable[cs[j]] IN ts[((j + rot) % Len(ts)) + 1]]
+StrRots == IF Quick THEN {0} ELSE {0, 1}
+\* placements of a string u in a stringify operand: root; key and value of one property; (thorough) after a sibling in an
+\* array, second key of an object
+StrPlacements(u) ==
+  {VStr(u), VObj(<<[n |-> u, v |-> VStr(u)]>>)}
+    \cup (IF Quick THEN {} ELSE {VArr(<<VInt(1), VStr(u)>>), VArr(<<VStr(u), VStr(u)>>)}
+                                  \cup (IF u = KA THEN {} ELSE {VObj(<<[n |-> KA, v |-> VInt(1)], [n |-> u, v |-> Null]>>)}))
+StrValCases(cs) == IF Len(cs) > StrValLen THEN {} ELSE UNION {StrPlacements(StrUnits(cs, r)) : r \in StrRots}
+\* every concrete unit of the table alone (the rotation shows one unit of a class per shape)
+StrUnitCases == UNION {StrPlacements(<<c>>) : c \in StrUnitsAll}
+\* spellings of one unit inside a string token: 0 raw, 1 \uxxxx, 2 \uXXXX (upper-case hex), 3 the short escape where JSON has one
+UpHex(h) == [j \in 1..Len(h) |-> IF h[j] >= 97 THEN h[j] - 32 ELSE h[j]]
+ShortEsc(c) == CASE c = 34 -> <<92, 34>> [] c = 92 -> <<92, 92>> [] c = 47 -> <<92, 47>> [] c = 8 -> <<92, 98>> [] c = 12 -> <<92, 102>>
+                 [] c = 10 -> <<92, 110>> [] c = 13 -> <<92, 114>> [] c = 9 -> <<92, 116>> [] OTHER -> <<c>>
+Spell(c, m) == CASE m = 0 -> <<c>> [] m = 1 -> <<92, 117>> \o JHex4(c) [] m = 2 -> <<92, 117>> \o UpHex(JHex4(c)) [] OTHER -> ShortEsc(c)
+StrTok(u, ms) == <<34>> \o JFlatLong([j \in 1..Len(u) |-> Spell(u[j], ms[j])]) \o <<34>>
+\* quick: every raw / escaped vector up to length 2, and for every shape the vector chosen by rotation over all four spellings;
+\* thorough: every vector over the four spellings
+SpellVecs(cs) ==
+  LET n == Len(cs) IN
+  IF Quick THEN (IF n <= 2 THEN [1..n -> {0, 1}] ELSE {}) \cup {[j \in 1..n |-> (j + SumSeq(cs)) % 4]}
+  ELSE [1..n -> 0..3]
+\* a string token as the whole text, and as key and value of one property
+StrTokTexts(cs) ==
+  IF Len(cs) > StrTokLen THEN {}
+  ELSE UNION {LET tok == StrTok(StrUnits(cs, 0), ms) IN {tok, <<123>> \o tok \o <<58>> \o tok \o <<125>>} : ms \in SpellVecs(cs)}
 
 \* ---------------- Enum: a tree of states, one printed case per leaf state ---------------------------------
 VARIABLES ph, cur, rec_i          \* rec_i: never a name that library operators bind
@@ -176,7 +233,9 @@ EnumNext ==
   /\ \/ /\ ph = "start"
         /\ \/ (ph' = "tokc" /\ cur' = <<>>)
            \/ (ph' = "tokf" /\ \E c \in 1..Len(FullToks) : cur' = <<c>>)
-           \/ (ph' = "vgrp" /\ \E g \in 0..(NGroups - 1) : cur' = g)
+           \/ (ph' = "vgrp" /\ \E g \in ValGroups : cur' = g)
+           \/ (ph' = "sgrp" /\ \E cs \in StrClassSeqs : cur' = cs)
+           \/ (ph' = "sv" /\ \E v \in StrUnitCases : cur' = v)
            \/ (ph' = "mgrp" /\ \E g \in MutGroups : cur' = g)
      \/ /\ ph = "tokc" /\ Len(cur) < MaxClassLen /\ ph' = ph
         /\ (Len(cur) < ClassFullLen \/ JViablePrefix(ClassText(cur)))
@@ -185,13 +244,17 @@ EnumNext ==
         /\ (Len(cur) < FullFullLen \/ JViablePrefix(FullText(cur)))
         /\ \E c \in 1..Len(FullToks) : cur' = Append(cur, c)
      \/ /\ ph = "vgrp" /\ ph' = "val"
-        /\ \E j \in {x \in 1..Len(ValSeq) : x % NGroups = cur} : cur' = ValSeq[j]
+        /\ \E v \in ValGroup(cur) : cur' = v
+     \/ /\ ph = "sgrp"
+        /\ \/ (ph' = "sv" /\ \E v \in StrValCases(cur) : cur' = v)
+           \/ (ph' = "st" /\ \E t \in StrTokTexts(cur) : cur' = t)
      \/ /\ ph = "mgrp" /\ ph' = "mut"
         /\ \E m \in MutationsAt(cur[1], cur[2]) : cur' = JFlatLong(m)
-IsTextState == ph \in {"tokc", "tokf", "mut"}
+IsTextState == ph \in {"tokc", "tokf", "mut", "st"}
+IsValState == ph \in {"val", "sv"}
 TextOf == CASE ph = "tokc" -> ClassText(cur) [] ph = "tokf" -> FullText(cur) [] OTHER -> cur
 EnumEmit == CASE IsTextState -> PrintT(ToJson([kind |-> "parse", fam |-> ph, t |-> TextOf]))
-              [] ph = "val" -> PrintT(ToJson([kind |-> "str", fam |-> ph, v |-> cur]))
+              [] IsValState -> PrintT(ToJson([kind |-> "str", fam |-> ph, v |-> cur]))
               [] OTHER -> TRUE
 
 \* ---------------- Laws of the reference ------------------------------------------------------------------
@@ -231,7 +294,7 @@ NumLaw == \A w \in FastNums :
             /\ JNumSlow(JNumToString(w)) = (IF w = WNegZero THEN WPosZero ELSE w)
             /\ JPyRepr(w, FALSE) = JNumToString(w)
 LawsHold == CASE IsTextState -> LET txt == TextOf IN TextLaw(txt)
-              [] ph = "val" -> ValueLaw(cur)
+              [] IsValState -> ValueLaw(cur)
               [] ph = "start" -> NumLaw
               [] OTHER -> TRUE
 
